@@ -266,12 +266,20 @@ Open Scope Z_scope.
 Set Printing Width 1000000.
 Set Printing Depth 1000000.
 Definition E i o e := {| re_id := i; re_orig := o; re_end := e |}.
+(* the same pipeline with the model of the PROPOSED repair (Kin.hel true) *)
+Definition model_create_expressions_repaired (ts : list rtopo) :=
+  match omap tree_of_topo ts with
+  | Some trees => Some (enc_dict (create_expressions_gen true trees))
+  | None => None
+  end.
 """
 
 
 def case_to_coq(idx: int, case, order) -> str:
     out = [f"Definition ord_{idx} : list rtopo := [" + ";\n  ".join(topo_to_coq(d) for d in order) + "]."]
     out.append(f"Eval vm_compute in (({idx}), 0, model_create_expressions ord_{idx}).")
+    if any(has_double(d) for d in order):
+        out.append(f"Eval vm_compute in (({idx}), 2, model_create_expressions_repaired ord_{idx}).")
     if case["permutate"]:
         out.append(f"Definition ini_{idx} : list rtopo := [" + ";\n  ".join(topo_to_coq(d) for d in case["init"]) + "].")
         out.append(f"Eval vm_compute in (({idx}), 1, map enc_topo (permutate ini_{idx})).")
@@ -299,8 +307,22 @@ def edge_set(d_or_enc):
     return frozenset(tuple(x) for x in d_or_enc)
 
 
-def compare(case, order, impl, model_dict, model_perm):
-    """-> list of (signature, what)"""
+def compare(case, order, impl, model_dict, model_perm, model_other=None, repaired=False):
+    """-> list of (signature, what).  repaired=True: the code is expected to follow Kin.hel true
+    (after the fix of angle_name_overwritten_two_decaying_children has landed in /repo)."""
+    if repaired and model_other is not None:
+        model_dict, model_other = model_other, model_dict
+    fails = _compare(case, order, impl, model_dict, model_perm)
+    if fails and fails[0][0] == "tie_value_mismatch" and model_other is not None:
+        if not _compare(case, order, impl, model_other, None):
+            which = "current-code model (hel false)" if repaired else "REPAIRED model (hel true)"
+            fails = [(s, w + f" -- the implementation agrees with the {which} on this case: "
+                      "flip MODEL_REPAIRED in runners/C07.py if /repo's behaviour at nodes with two "
+                      "decaying children was changed on purpose") for s, w in fails]
+    return fails
+
+
+def _compare(case, order, impl, model_dict, model_perm):
     fails = []
     unparsed = {k: v for k, v in impl.items() if v and v[0] == "?"}
     if unparsed:
@@ -358,6 +380,7 @@ def main():
         print(json.dumps({"files": files, "n": len(cases), "kinds": kinds, "errors": errors}))
     elif mode == "cmp":
         outdir = sys.argv[2]
+        repaired = len(sys.argv) > 3 and sys.argv[3] == "repaired"
         recs = json.load(open(os.path.join(outdir, "cases_C07.json")))
         parsed = {}
         for fn in sorted(os.listdir(outdir)):
@@ -372,7 +395,8 @@ def main():
                 failures.append({"signature": "tie_model_output_missing", "what": f"case {idx}: no model output",
                                  "case": r["case"], "input": False})
                 continue
-            fs = compare(r["case"], r["order"], r["impl"], parsed[(idx, 0)], parsed.get((idx, 1)))
+            fs = compare(r["case"], r["order"], r["impl"], parsed[(idx, 0)], parsed.get((idx, 1)),
+                         parsed.get((idx, 2)), repaired)
             n_vars += len(r["impl"])
             if not fs:
                 n_ok += 1
@@ -396,9 +420,11 @@ def main():
         print(json.dumps({"ok": True}))
     elif mode == "cmp1":
         outdir = sys.argv[2]
+        repaired = len(sys.argv) > 3 and sys.argv[3] == "repaired"
         r = json.load(open(os.path.join(outdir, "one.json")))
         parsed = parse_coq_output(open(os.path.join(outdir, "Case_one.out")).read())
-        fs = compare(r["case"], r["order"], r["impl"], parsed.get((0, 0)), parsed.get((0, 1)))
+        fs = compare(r["case"], r["order"], r["impl"], parsed.get((0, 0)), parsed.get((0, 1)),
+                     parsed.get((0, 2)), repaired)
         print(json.dumps({"still_fails": bool(fs), "failures": fs[:3]}))
 
 
